@@ -15,9 +15,15 @@ L16 = [
     ("abc|ab", ["builder", "teddy"]),               # order matters for leftmost-first
     ("a|b|c", ["builder"]),
     ("xa|ya|za|wa", ["builder", "teddy"]),
+    ("foobar|baz", ["builder", "teddy", "fatteddy"]),   # mixed lengths, longer literal listed first
+    ("baz|foobar", ["teddy", "fatteddy"]),
+    ("abcd|xyz|abcdef", ["teddy", "fatteddy"]),
     ("", ["digit"]),
 ]
-QUICK = {"a", "abc", "ab|cd", "ab|abc", "abc|ab", "foo|bar|baz", ""}
+# many-literal sets that make the builder select Fat Teddy (33..64) and Aho-Corasick (>64)
+MANY40 = "|".join(["lit%02dx" % i for i in range(20)] + ["s%02d" % i for i in range(20)])
+MANY70 = "|".join(["w%02dz" % i for i in range(70)])
+QUICK = {"a", "abc", "ab|cd", "ab|abc", "abc|ab", "foo|bar|baz", "foobar|baz", "abcd|xyz|abcdef", ""}
 
 
 def items(tier):
@@ -34,6 +40,19 @@ def items(tier):
                 if kind in ("teddy", "fatteddy", "builder") and tier != "quick":
                     out.append(mk("C16", lits, kind, 3, "", mode=complete, n=0, pre="x" * 14, post="y" * 3))
                     out.append(mk("C16", lits, kind, 3, "", mode=complete, n=5, pre="x" * 30, post="y" * 40))
+    # short haystacks (scalar paths of the multi-literal searchers): the literal may end exactly at the end
+    for lits, kinds in L16:
+        if tier == "quick" and lits not in QUICK:
+            continue
+        for kind in kinds:
+            if kind in ("teddy", "fatteddy"):
+                out.append(mk("C16", lits, kind, 3, "", mode=0, n=0, pre="xx"))
+                out.append(mk("C16", lits, kind, 3, "", mode=0, n=2, pre="xx", post="q"))
+                if tier != "quick":
+                    out.append(mk("C16", lits, kind, 3, "", mode=0, n=16, pre="0123456789abcdefxx"))
+    out.append(mk("C16", MANY40, "builder", 3, "hex:" + b"s07lix ".hex(), mode=0, n=0, pre="abc "))
+    out.append(mk("C16", MANY40, "builder", 3, "hex:" + b"s07lix ".hex(), mode=0, n=0, pre="lit07"))
+    out.append(mk("C16", MANY70, "builder", 3, "hex:" + b"w07z ".hex(), mode=0, n=0, pre="w0"))
     return out
 
 
